@@ -1,5 +1,6 @@
 #ifndef CLS_HPP
 #define CLS_HPP
+#include <string>
 namespace ns {
 enum Color { RED, BLUE = 5 };
 class Shape {
@@ -43,5 +44,7 @@ int firstOf(const Pair *p);
 template<typename T> T half(T v);
 template<typename T> T biggest();
 template<typename T, typename U> void store(T first, U second);
+int normalize(std::string &text);
+int normalize(const std::string &text);
 }
 #endif
